@@ -47,6 +47,8 @@ def run(ck, prog, ctx):
     pvl = Prov(prog, inline=False, bind_closures=False)
     for b in sorted({x[0].id for x in sites}):
         cb = prog.bodies[b]
+        if cb.name != "calculate":
+            continue  # the documented "0 for an empty set" is the contract of SimilarityCombiner::calculate; other guarded callers may default differently
         for bi, t in cb.calls():
             if t.callee.method == "is_empty" and (t.callee.res or "").startswith("matrix::Matrix"):
                 for (sbi, tg) in positive_edges(cb, pvl, bi):
